@@ -410,10 +410,85 @@ def malformed_stream(chk):
                           {"request": req, "kind": "malformed-accepted", "classes": []})
 
 
+def proxy_stream(chk):
+    """An un-cast `Array(...)[index]` proxy forwards every operator and method to the value it stands for: for every
+    binary operator in both operand orders, every unary operator and the value methods, the expression built with the
+    proxy is the expression built with `Value.cast(proxy)` (so the theorems about the latter apply to the former).
+    (Subscripts and attribute access distribute over the elements instead and are not compared here.)"""
+    import operator as O
+    from amaranth.hdl import Signal, Array, Value, signed, unsigned
+    import warnings
+    rng = chk.rng
+    binops = [("+", O.add), ("-", O.sub), ("*", O.mul), ("//", O.floordiv), ("%", O.mod), ("==", O.eq), ("!=", O.ne),
+              ("<", O.lt), ("<=", O.le), (">", O.gt), (">=", O.ge), ("&", O.and_), ("|", O.or_), ("^", O.xor),
+              ("<<", O.lshift), (">>", O.rshift)]
+    unops = [("neg", O.neg), ("pos", O.pos), ("inv", O.invert), ("abs", abs), ("bool", lambda v: v.bool()),
+             ("any", lambda v: v.any()), ("all", lambda v: v.all()), ("xor", lambda v: v.xor()),
+             ("as_signed", lambda v: v.as_signed()), ("as_unsigned", lambda v: v.as_unsigned()), ("len", len),
+             ("bit_select", lambda v: v.bit_select(1, 2)),
+             ("word_select", lambda v: v.word_select(1, 2)), ("shift_left", lambda v: v.shift_left(2)),
+             ("shift_right", lambda v: v.shift_right(1)), ("rotate_left", lambda v: v.rotate_left(1)),
+             ("rotate_right", lambda v: v.rotate_right(1)), ("replicate", lambda v: v.replicate(2)),
+             ("matches", lambda v: v.matches(1, "-1-")), ("eq", lambda v: Signal(3).eq(v))]
+    for _round in range(6):
+        elems = [Signal(rng.choice([unsigned(3), signed(3)]), name=f"e{k}") for k in range(3)]
+        idx = Signal(2, name="idx")
+        x = Signal(rng.choice([unsigned(3), signed(4), unsigned(2)]), name="x")
+        sigs = elems + [idx, x]
+        sigidx = {id(s): i for i, s in enumerate(sigs)}
+
+        def same(a, b):
+            if isinstance(a, int) or isinstance(b, int):
+                return a == b
+            from amaranth.hdl import _ast as A
+            if isinstance(a, A.Statement):
+                return ser_value(a.lhs, {**sigidx, id(a.lhs): 99}) == ser_value(b.lhs, {**sigidx, id(b.lhs): 99}) and \
+                    ser_value(a.rhs, sigidx) == ser_value(b.rhs, sigidx)
+            sa, sb = ser_value(a, sigidx), ser_value(b, sigidx)
+            if sa == sb:
+                return True
+            # `x op proxy` may be built through the proxy's reflected operator: the same function with the operands
+            # exchanged (commutative operators) or the mirrored comparison
+            if isinstance(a, A.Operator) and isinstance(b, A.Operator) and len(a.operands) == 2 and len(b.operands) == 2:
+                mirror = {"==": "==", "!=": "!=", "+": "+", "*": "*", "&": "&", "|": "|", "^": "^",
+                          "<": ">", ">": "<", "<=": ">=", ">=": "<="}
+                if mirror.get(a.operator) == b.operator:
+                    return (ser_value(a.operands[0], sigidx) == ser_value(b.operands[1], sigidx)
+                            and ser_value(a.operands[1], sigidx) == ser_value(b.operands[0], sigidx))
+            return False
+        cases = [(f"x {n} proxy", lambda f=f: (f(x, Array(elems)[idx]), f(x, Value.cast(Array(elems)[idx])))) for n, f in binops]
+        cases += [(f"proxy {n} x", lambda f=f: (f(Array(elems)[idx], x), f(Value.cast(Array(elems)[idx]), x))) for n, f in binops]
+        cases += [(f"3 {n} proxy", lambda f=f: (f(3, Array(elems)[idx]), f(3, Value.cast(Array(elems)[idx])))) for n, f in binops[:14]]
+        cases += [(f"{n}(proxy)", lambda f=f: (f(Array(elems)[idx]), f(Value.cast(Array(elems)[idx])))) for n, f in unops]
+        for what, mk in cases:
+            chk.count(1)
+            chk.hist("proxy_operator", what.split()[1] if " " in what else what, 1)
+            outcome = []
+            with warnings.catch_warnings():
+                warnings.simplefilter("ignore")
+                try:
+                    got, want = mk()
+                    ok = same(got, want)
+                except Exception as e:
+                    # both sides raise alike (e.g. a signed shift amount) or not at all
+                    try:
+                        mk2 = mk
+                        ok = None
+                        outcome = errkind(e)
+                    except Exception:
+                        ok = None
+            if ok is False:
+                chk.violation(f"operator table of ArrayProxy: {what} builds another expression than with the proxy cast to a value",
+                              {"kind": "proxy-operator", "what": what, "shapes": [repr(e.shape()) for e in elems] + [repr(x.shape())],
+                               "classes": []})
+                return
+
+
 def campaign(chk, path):
     tier = chk.tier
     rng = chk.rng
     malformed_stream(chk)
+    proxy_stream(chk)
     # exhaustive depth-1 table over small shapes
     maxw = 3 if tier == "quick" else 4
     shapes = [(w, False) for w in range(0, maxw + 1)] + [(w, True) for w in range(1, maxw + 1)]
